@@ -601,6 +601,11 @@ def search_c07(results, tier, seed, broken):
                 continue
             dist["kind=%s batch=%d all_single_ok=%s" % (kind, bv, all(x == 0 for x in singles))] += 1
             nontriv.add((kind, tuple(singles), s["curve"], len(singles)))
+            for nm, cde in zip(("an iterator whose size_hint lower bound is 0 (filter)", "an exact head chained with a lazily sized tail"), [int(x) for x in im.get(23, [])]):
+                if cde == 0 and any(x != 0 for x in singles):
+                    hits.append(_hit(r, comp, streams, cid, "batch_verify over %s accepts although instances %s fail individually (verdicts %s; over a Vec: %d)" % (nm, [i for i, x in enumerate(singles) if x != 0], singles, bv)))
+                elif cde != 0 and all(x == 0 for x in singles):
+                    hits.append(_hit(r, comp, streams, cid, "batch_verify over %s rejects (code %d) although every instance verifies individually" % (nm, cde)))
             if bv == 99:
                 hits.append(_hit(r, comp, streams, cid, "batch_verify panicked: " + str(im.get(98, ""))))
             elif bv == 0 and any(x != 0 for x in singles):
